@@ -134,6 +134,7 @@ impl ActorAttributeArguments {
 
             // DEBUG TRAIT
             else if meta.path().is_ident("Debug"){
+                super::expect_word(meta,Some(error::AVAIL_ACTOR));
                 self.trait_debug = true;
             }
 
@@ -166,11 +167,13 @@ impl ActorAttributeArguments {
 
             // LOCK RwLock
             else if meta.path().is_ident(crate::RWLOCK){
+                super::expect_word(meta,Some(error::AVAIL_FAMILY));
                 self.mod_receiver = ModelReceiver::ArcRwLock;
             }
 
             // LOCK Mutex
             else if meta.path().is_ident(crate::MUTEX){
+                super::expect_word(meta,Some(error::AVAIL_FAMILY));
                 self.mod_receiver = ModelReceiver::ArcMutex;
             }
 
